@@ -29,6 +29,7 @@ const (
 	ActSlow  = 103
 	ActLend  = 104
 	ActRelay = 105
+	SigNote  = 112
 	SigTick  = 110
 	SigTock  = 111
 	PropLvl  = 120
